@@ -406,12 +406,13 @@ def cause_of(cfg, st, obs):
             pr = packed_rows(cfg, obs, l)
             if pr is None or len(pr) != estimated_height(cfg, obs, l):
                 return "height-estimate"
+        # rows of the text up to and including the cursor cell, against the estimate
+        # for that slice (what _scroll_when_linewrapping uses for vertical_scroll_2)
         pr = packed_rows(cfg, obs, row)
-        if col >= 1:
-            before_rows = [i for i, r in enumerate(pr) if col - 1 in r][0] + 1
-            if before_rows != estimated_height(cfg, obs, row, col):
-                return "height-estimate"
-        return "row-start" if f1_family(cfg, st, obs) else "none"
+        upto_rows = [i for i, r in enumerate(pr) if col in r][0] + 1
+        if upto_rows != estimated_height(cfg, obs, row, col + 1):
+            return "height-estimate"
+        return "none"
     line = obs["lines"][row]
     if any(_widths(ch)[0] != _widths(ch)[1] for ch in line):
         return "hscroll-width"
@@ -419,7 +420,8 @@ def cause_of(cfg, st, obs):
 
 
 def f1_family(cfg, st, obs):
-    """Input-side description of finding C11-F1: wrapping on, the cursor line is
+    """(Diagnostic only, no longer a known-finding tag.)  Input-side description of the
+    repaired finding C11-F1: wrapping on, the cursor line is
     taller than the window minus the top offset, and the cursor sits on the
     first text cell of a wrapped row at or below the window height (the text
     before the cursor fills its rows exactly)."""
